@@ -76,6 +76,20 @@ def make_functions():
         ("s_two", r.fns.s_two, lambda a: [-a, np.abs(a)], 1, 2, {}),
         ("s_scale", r.fns.s_scale, lambda a, alpha=1.0: [a * np.float32(alpha)], 1, 1, {"alpha": 1.5}),
     ]
+
+    def ovl(name, overload, fn, n):
+        f = bf(name, fn, n)
+        return ir.Function(f.domain, f.name, overload, graph=f.graph, attributes={})
+
+    # several overloads of one (domain, name) with different bodies: a call node that loses its
+    # `overload` dispatches to the wrong body, which the onnxruntime-vs-NumPy oracle sees
+    tab += [
+        ("ovl", ovl("ovl", "neg", lambda op, a: op.Neg(a), 1), lambda a: [-a], 1, 1, {}),
+        ("ovl", ovl("ovl", "abs", lambda op, a: op.Abs(a), 1), lambda a: [np.abs(a)], 1, 1, {}),
+        ("ovl", ovl("ovl", "twice", lambda op, a: op.Add(a, a), 1), lambda a: [a + a], 1, 1, {}),
+        ("mix", ovl("mix", "", lambda op, a, b: op.Sub(a, b), 2), lambda a, b: [a - b], 2, 1, {}),
+        ("mix", ovl("mix", "mul", lambda op, a, b: [op.Mul(a, b), op.Max(a, b)], 2), lambda a, b: [a * b, np.maximum(a, b)], 2, 2, {}),
+    ]
     return tab
 
 
@@ -108,10 +122,8 @@ def fn_graph(obj):
 
 def fn_domain_name(obj):
     ir = R().ir
-    if isinstance(obj, ir.Function):
-        return obj.domain, obj.name
-    f = obj.function_ir
-    return f.domain, f.name
+    f = obj if isinstance(obj, ir.Function) else obj.function_ir
+    return f.domain, f.name, f.overload
 
 
 def at(s: str) -> str:
@@ -120,14 +132,14 @@ def at(s: str) -> str:
 
 def fn_token(obj) -> str:
     g = fn_graph(obj)
-    dom, name = fn_domain_name(obj)
+    dom, name, overload = fn_domain_name(obj)
     nodes = []
     for n in g:
         ins = ";".join("@" if i is None else i.name for i in n.inputs)
         outs = ";".join(at(o.name) for o in n.outputs)
         nodes.append("^".join([at(n.name or ""), at(n.domain), n.op_type, ins, outs]))
     return "|".join(
-        ["F", name, at(dom), ";".join(v.name for v in g.inputs), ";".join(v.name for v in g.outputs), "~".join(nodes)]
+        ["F", name, at(dom), at(overload), ";".join(v.name for v in g.inputs), ";".join(v.name for v in g.outputs), "~".join(nodes)]
     )
 
 
@@ -293,7 +305,7 @@ class RealExec:
             ga = {a.name: str(gidx.get(id(a.value), -1)) for a in n.attributes.values() if a.type == ir.AttributeType.GRAPH}
             gs = [ga.pop(k) for k in ("then_branch", "else_branch", "body") if k in ga] + list(ga.values())
             return "|".join(
-                [n.name or "", n.domain, n.op_type, ",".join(nm(i) for i in n.inputs),
+                [n.name or "", n.domain, n.op_type + (":" + n.overload if n.overload else ""), ",".join(nm(i) for i in n.inputs),
                  ",".join(nm(o) for o in n.outputs), ",".join(gs)]
             )
 
@@ -303,7 +315,7 @@ class RealExec:
                 f"{g.name} in={','.join(nm(v) for v in g.inputs)} out={','.join(nm(v) for v in g.outputs)} nodes="
                 + "!".join(node(n) for n in g)
             )
-        funcs = [f"{k[0]}:{k[1]}" for k in self.gb.functions.keys()]
+        funcs = [f"{k[0]}:{k[1]}:{k[2]}" for k in self.gb.functions.keys()]
         return (
             " ## ".join(parts) + " ## INIT " + ",".join(self.g.initializers.keys())
             + " ## FUNCS " + ",".join(funcs) + " ## OPEN 0 ## ERR -"
@@ -724,10 +736,13 @@ class TraceGen:
                 return self.gen_op(items, in_sub)
             self.emit_op(items, "Shape", [["r", v[0]]], [("i64", (1,))], in_sub, typed=v[3])
 
-    def gen_call(self, items, in_sub, inline):
+    def gen_call(self, items, in_sub, inline, force_fi=None):
         rng = self.rng
-        fi = rng.randrange(len(self.fntab))
+        fi = rng.randrange(len(self.fntab)) if force_fi is None else force_fi
         name, obj, impl, nin, nout, attrs = self.fntab[fi]
+        siblings = [j for j, f in enumerate(self.fntab) if f[0] == name and j != fi]
+        if siblings:
+            self.stats["call_overloaded_name" if not inline else "inline_overloaded_name"] += 1
         srcs = [self.pick(lambda v: v[1] == "f32" and v[2] == (3,)) for _ in range(nin)]
         if any(s is None for s in srcs):
             return self.gen_op(items, in_sub)
@@ -755,6 +770,10 @@ class TraceGen:
         for _ in range(nout):
             self.vis.append((self.h, "f32", (3,), typed))
             self.h += 1
+        if siblings and force_fi is None and rng.random() < 0.7:
+            # another overload of the same (domain, name) in the same trace, as a node or inlined
+            self.gen_call(items, in_sub, inline=rng.random() < 0.4, force_fi=rng.choice(siblings))
+            self.stats["two_overloads_in_trace"] += 1
 
     def gen_sub(self, gname, inputs, body_fn, declared_n):
         """returns the S item; `body_fn(items)` generates the body and returns the ret handles."""
@@ -935,9 +954,8 @@ def classify_builder_failure(case, dup_vals, dup_nodes) -> str | None:
     dups = {**dup_vals, **dup_nodes}
     if not dups:
         return None
-    cross = all(len(set(ps)) > 1 for ps in dups.values())
-    if has_subgraph(case) and cross:
-        return "D20a"  # every duplicated name is defined in two different graphs
+    # (D20a — the same automatic name in two different graphs — is fixed in /repo e9794aa: such a
+    #  duplicate is a violation again)
     if uses_passthrough_inline(case):
         return "D20c"
     if underscore_digit_callee(case):
@@ -1201,6 +1219,20 @@ def slice_of(idxs, n):
     raise ValueError(idxs)
 
 
+# fixed programs run before the generated ones (regression cases)
+NN_CORPUS = [
+    # stages = ModuleList() attached first, then nested ModuleLists appended (depth 4)
+    "M|model M|@ p|@|weight|@ c|@|stem ML|0 c|@|stages M|@ p|@|weight|@ M|@ p|@|weight|@ ML|2 ap|stages "
+    "M|@ p|@|weight|@ ML|1 ap|stages",
+    # …and a leaf appended into the nested list after *that* was appended; a Sequential stage
+    "M|model ML|0 c|@|stages M|@ p|@|weight|@ ML|1 ap|stages M|@ p|@|bias|@ ap|stages/0 "
+    "M|@ p|@|weight|@ M|@ p|@|weight|@ SQ|2 ap|stages",
+    # nested lists built before the parent gets its name
+    "M|net M|@ p|@|weight|@ ML|1 M|@ p|@|weight|@ M|@ p|@|bias|@ SQ|2 ML|2 c|@|layers",
+    # three levels of ModuleList, innermost appended last
+    "M|root ML|0 c|@|a ML|0 ap|a ML|0 ap|a/0 M|@ p|@|scale|@ ap|a/0/0 M|@ p|@|scale|@ ap|a/0/0",
+]
+
 ATTRS = ["fc", "proj", "layers", "blocks", "net", "w", "head", "a", "b"]
 PATTRS = ["weight", "bias", "scale"]
 
@@ -1255,6 +1287,14 @@ class NNGen:
                 # append / extend / nested setattr after the container was named (path-addressed mutation)
                 for a, k in late:
                     n = rng.randint(1, 2)
+                    if k == "ML" and rng.random() < 0.5:
+                        # unnamed nested containers (with parameterised leaves) appended to the already
+                        # named list: their grandchildren must be renamed `a.<i>.<j>` by `_set_name`
+                        for _ in range(n):
+                            self.nested_container(prog, rng.choice(["ML", "ML", "SQ"]), depth + 2)
+                        prog.append(f"ap|{a}" if n == 1 else f"ex|{a}|{n}")
+                        self.stats["nested_list_after_naming"] += n
+                        continue
                     for _ in range(n):
                         self.module(prog, depth + 2, self.maybe_div_name(), "M" if k == "SQ" else rng.choice(["M", "M", "SQ", "ML"]) if depth < 2 else "M")
                     if n == 1 and rng.random() < 0.6:
@@ -1287,6 +1327,21 @@ class NNGen:
             self.stats["slice"] += 1
             return "ML"
         return kind
+
+    def leaf(self, prog):
+        prog.append("M|@")
+        self.stats["kind_module"] += 1
+        prog.append(f"p|@|{self.rng.choice(PATTRS)}|@")
+
+    def nested_container(self, prog, kind, depth):
+        m = self.rng.randint(1, 2)
+        for _ in range(m):
+            if kind == "ML" and depth < 4 and self.rng.random() < 0.3:
+                self.nested_container(prog, self.rng.choice(["ML", "SQ"]), depth + 1)
+            else:
+                self.leaf(prog)
+        prog.append(f"{kind}|{m}")
+        self.stats["kind_list" if kind == "ML" else "kind_seq"] += 1
 
     def maybe_div_name(self):
         if self.explicit and self.rng.random() < 0.15:
@@ -1490,6 +1545,7 @@ def main(run: core.Run) -> None:
             prog = g.program()
             progs.append({"prog": prog, "explicit": explicit, "diverging": g.diverging})
             distinct.add(" ".join(prog))
+    progs = [{"prog": p.split(), "explicit": False, "diverging": False} for p in NN_CORPUS] + progs
     for k in range(0, len(progs), 250):
         all_problems += check_nn_cases(run, drv, progs[k:k + 250], stats)
     for p in progs[:3]:
@@ -1583,6 +1639,6 @@ def main(run: core.Run) -> None:
     )
     if stats["builder_cases"] and stats["builder_real_error"] > 0.3 * stats["builder_cases"]:
         raise core.Infra("generator degenerated: >30% of traces refused by the builder")
-    for need in ("If", "Loop", "inline", "call", "lit_list", "multi_output", "push", "append_after_naming", "slice", "kind_seq", "kind_list"):
+    for need in ("If", "Loop", "inline", "call", "two_overloads_in_trace", "call_overloaded_name", "nested_list_after_naming", "lit_list", "multi_output", "push", "append_after_naming", "slice", "kind_seq", "kind_list"):
         if not stats[need]:
             raise core.Infra(f"generator never produced construct {need}")
